@@ -10,7 +10,10 @@ switch, "raise2": two switches in two variables), a dependency requested for a t
 is not a period ("bad_period"), for an unknown variable ("unknown_var"), for a period of
 the wrong unit ("wrong_unit"), a variable that reads itself at the same period
 ("cycle_direct") and two variables that read each other ("cycle_mutual").  Cause removal:
-["switch", k, false], or the pseudo request ["fix"] = set_input on the injected variable
+["switch", k, false], or ["replace", v, formulas, "replace"|"update"] = a corrected class for the
+variable given to TaxBenefitSystem.replace_variable / update_variable under the live
+simulation (model side: a new segment of Corr_C18.CSeq with the new rule system and the
+state carried over), or the pseudo request ["fix"] = set_input on the injected variable
 at the period at which it was being computed when the last failure fired (resolved at run
 time from the recorded stack; the resolved request is what the Coq model is given).
 
@@ -31,8 +34,10 @@ import warnings
 
 import numpy
 
+from openfisca_core.variables import Variable
+
 import rules
-from common import Err, errkind
+from common import Err, clist, errkind
 
 PROP = "C18"
 COQ_HEADER = "From Verif Require Import Np Group Param Engine CorrEng Corr_C18."
@@ -47,9 +52,12 @@ RULE = ("ranked rule systems (5-9 variables over the expression language of coq/
         "non-period text, unknown variable, wrong-unit dependency, direct cycle, mutual cycle - at the first, last or "
         "an inner position of the formula (so that none, all or some of the other dependencies have completed when it "
         "fires); request sequences: inputs, failing and succeeding requests mixed, cause removed (switch off / "
-        "set_input on the failing node), same request repeated, further requests; FullTracer on or off; plus a stream "
+        "set_input on the failing node / the variable's class corrected on the live tax-benefit system with "
+        "replace_variable or update_variable), same request repeated, further requests; max_spiral_loops 1-3; "
+        "FullTracer on or off; plus a stream of circular definitions passing through 1-2 other periods of the same "
+        "variable before closing under max_spiral_loops 1-3 (missing input then supplied), and a stream "
         "of self-dependent (spiralling) systems with raising formulas and malformed requests for which only the "
-        "stack / cursor / purge part is claimed.  Non-trivial: an injected failure fired below the top-level "
+        "stack / cursor / purge / re-entrance part is claimed.  Non-trivial: an injected failure fired below the top-level "
         "request with at least one unfinished frame; distinct by JSON text")
 TRUSTED = ["harness/rules.py: compiler from rule-system terms to real Variable subclasses (formulas call the public API)",
            "harness/c18.py: the wrapper around Simulation.calculate (instance attribute) that records the calls in "
@@ -243,7 +251,10 @@ def gen_injected(rng, counter):
         where = ["first", "last", "inner"][(counter[0] // len(KINDS)) % 3]
         counter[0] += 1
         sys = inject(rng, sys0, f, kind, where, switch=0)
+        sys["max_loops"] = rng.choice([1, 1, 2, 3])
         nv0 = len(sys0["vars"])
+        # third way of removing the cause: the variable's class is corrected on the live tax-benefit system
+        swap = ["replace", f, copy.deepcopy(sys0["vars"][f]["formulas"]), rng.choice(["replace", "update"])]
         others = lambda k: [gen_calc_request(rng, sys0, rng.randrange(nv0), year) for _ in range(k)]  # noqa: E731
         reqs = list(sets)
         if kind in ("raise", "raise2"):
@@ -266,15 +277,20 @@ def gen_injected(rng, counter):
             else:
                 if rng.random() < 0.3:
                     reqs += [target]                                   # fails twice in a row
-                reqs += [["switch", 0, False], target]
+                reqs += [swap if rng.random() < 0.3 else ["switch", 0, False], target]
             again = [r for r in first if r != target]
             reqs += rng.sample(again, min(len(again), 2)) + others(rng.randint(0, 2))
         else:
             first = others(rng.randint(1, 3)) + [target]
             rng.shuffle(first)
-            reqs += first + [["fix"], target]
             if rng.random() < 0.5:
-                reqs += [["fix"], target]
+                reqs += first + [["fix"], target]
+                if rng.random() < 0.5:
+                    reqs += [["fix"], target]
+                if rng.random() < 0.3:
+                    reqs += [swap, target]
+            else:
+                reqs += first + [swap, target]
             again = [r for r in first if r != target]
             reqs += rng.sample(again, min(len(again), 2)) + others(rng.randint(0, 2))
             if kind.startswith("cycle") and rng.random() < 0.5:
@@ -286,7 +302,7 @@ def gen_injected(rng, counter):
 
 
 def gen_spiral(rng):
-    case = rules.gen_case(rng, SPIRAL)
+    case = rules.gen_case(rng, dict(SPIRAL, max_loops=rng.choice([1, 1, 2, 3])))
     case["sys"]["switches"] = sorted(rng.sample([0, 1, 2], rng.randint(1, 3)))
     case["cfg"] = {"trace": rng.random() < 0.5}
     reqs = case["requests"]
@@ -312,6 +328,56 @@ def gen_spiral(rng):
     return case
 
 
+def gen_long_cycle(rng):
+    """A circular definition that passes through the same variable at m - 1 OTHER periods before it closes
+    (f@D -> f@D-1 -> ... -> f@D-(m-1) -> f@D), under max_spiral_loops L in 1..3.  With L >= m every re-entry is a
+    circular-definition error and no request on the periods of the circle can spiral (full oracle); with L < m the
+    spiral cut fires first (stack / purge part only).  The cause is removed by supplying the missing input."""
+    m = rng.choice([2, 2, 3])
+    loops = rng.choice([1, 2, 2, 3, 3])
+    unit = rng.choice(["year", "year", "month"])
+    ent = rng.choice(["person", "person", "group"])
+    y = rng.choice([2018, 2019, 2020])
+    mo = 1 if unit == "year" else rng.randint(4, 12)
+
+    def per(j):     # the period j steps before D
+        return ["year", [y - j, 1, 1], 1] if unit == "year" else ["month", [y, mo - j, 1], 1]
+
+    start = per(m - 2)[1]
+    var = lambda formulas, ty="int": {"ent": ent, "type": ty, "unit": unit, "end": None, "formulas": formulas,  # noqa: E731
+                                      "default": rng.choice([0, 1, 3]), "neutral": False}
+    back = ["bin", "add", ["dep", 1, ["offset", -1], "plain"], ["dep", 0, "same", "plain"]]
+    if unit == "year" and rng.random() < 0.4:
+        back = ["bin", "add", ["dep", 1, "last_year", "plain"], ["dep", 0, "same", "plain"]]
+    if rng.random() < 0.3:
+        back = ["bin", "add", back[3], back[2]]
+    fwd = ["bin", "sub", ["dep", 1, ["offset", m - 1], "plain"], ["dep", 0, ["offset", m - 1], "plain"]]
+    vs = [var([]),
+          var([[[1, 1, 1], fwd], [start, back]], rng.choice(["int", "float"])),
+          var([[[1, 1, 1], rng.choice([["bin", "mul", ["const", 2], ["dep", 1, "same", "plain"]],
+                                       ["bin", "add", ["dep", 0, "same", "plain"], ["dep", 1, "same", "plain"]]])]]),
+          var([[[1, 1, 1], ["bin", "add", ["dep", 2, "same", "plain"], ["dep", 0, "same", "plain"]]]]),
+          var([[[1, 1, 1], ["bin", "add", ["dep", 0, "same", "plain"], ["const", rng.randint(1, 5)]]]])]
+    sys = {"vars": vs, "params": [], "switches": [], "max_loops": loops}
+    pop = rules.gen_pop(rng, 4)
+    n = rules.count_for(pop, vs[0])
+    reqs = [["set", 0, per(j), [rng.randint(-20, 100) for _ in range(n)]] for j in range(m) if rng.random() < 0.9]
+    target = ["calc", rng.choice([2, 2, 3, 1]), per(rng.choice([0, 0, 1]) if loops >= m else 0)]
+    circle = lambda k: [["calc", rng.choice([1, 2, 3, 4]), per(rng.randrange(m))] for _ in range(k)]  # noqa: E731
+    first = circle(rng.randint(1, 2)) + [target]
+    rng.shuffle(first)
+    reqs += first
+    if rng.random() < 0.6:
+        reqs += [["set", 1, per(rng.randrange(m)), [rng.randint(-9, 30) for _ in range(n)]]]    # the missing input
+    else:
+        reqs += [["fix"]]
+    reqs += [target] + circle(rng.randint(1, 3))
+    return {"sys": sys, "pop": pop, "cfg": {"trace": rng.random() < 0.5}, "requests": reqs,
+            "mode": "full" if loops >= m else "stack",
+            "inject": {"var": 1, "kind": f"cycle-through-{m}-periods-L{loops}", "where": None, "target": target},
+            "fixvals": [rng.randint(-9, 30) for _ in range(6)]}
+
+
 def generate(rng, tier):
     n_full, n_spiral = {"quick": (420, 60), "escalated": (1500, 200), "thorough": (3600, 400)}[tier]
     cases, counter = [], [rng.randrange(len(KINDS) * 3)]
@@ -320,6 +386,8 @@ def generate(rng, tier):
     cases = cases[:n_full]
     for _ in range(n_spiral):
         cases.append(gen_spiral(rng))
+    for _ in range(n_spiral):
+        cases.append(gen_long_cycle(rng))
     return cases
 
 
@@ -331,7 +399,7 @@ class Runner:
     """One real simulation.  With probe=True, Simulation.calculate is wrapped on the instance."""
 
     def __init__(self, case, probe=False, trace=None):
-        self.sys, self.pop = case["sys"], case["pop"]
+        self.sys, self.pop = copy.deepcopy(case["sys"]), case["pop"]     # self.sys follows ["replace", ...] requests
         self.switches = set(self.sys.get("switches", []))
         self.tbs = rules.build_system(self.sys, self.switches)
         cfg = dict(case.get("cfg") or {})
@@ -362,10 +430,33 @@ class Runner:
 
         self.sim.calculate = calculate       # population(...) and calculate_add/divide go through self.calculate
 
+    def replace(self, f, formulas, how):
+        """TaxBenefitSystem.replace_variable / update_variable under the live simulation: a new class for
+        variable f, same attributes, other formulas (built like rules.build_system builds it)"""
+        v = self.sys["vars"][f]
+        old = self.tbs.get_variable(f"v{f}")
+        attrs = {"value_type": rules.TYPES[v["type"]], "entity": old.entity,
+                 "definition_period": rules.UNIT_OBJ[v["unit"]],
+                 "default_value": rules.TYPES[v["type"]](v["default"])}
+        if v.get("end"):
+            y, m, d = v["end"]
+            attrs["end"] = f"{y:04d}-{m:02d}-{d:02d}"
+        v["formulas"] = copy.deepcopy(formulas)
+        for start, e in v["formulas"]:
+            attrs[rules.formula_name(start)] = rules.make_formula(self.sys, self.switches, e, v["ent"])
+        cls = type(f"v{f}", (Variable,), attrs)
+        if how == "update":
+            self.tbs.update_variable(cls)
+        else:
+            self.tbs.replace_variable(cls)
+
     def do(self, r):
         self.fired = None
         self.reentered = None
         try:
+            if r[0] == "replace":
+                self.replace(r[1], r[2], r[3])
+                return None
             return rules.do_request(self.sim, self.sys, self.switches, r)
         except rules.Inexact:
             raise
@@ -428,9 +519,9 @@ def run_impl(case):
     return out
 
 
-def _fresh_case(case, requests, switches):
+def _fresh_case(case, requests, switches, sys=None):
     c = dict(case)
-    c["sys"] = dict(case["sys"])
+    c["sys"] = dict(sys if sys is not None else case["sys"])
     c["sys"]["switches"] = sorted(switches)
     c["requests"] = requests
     return c
@@ -469,7 +560,7 @@ def _run(case):
             fr, en = None, []
             if full and is_calc(r):
                 inputs = [q for q in resolved if q[0] == "set"]
-                f1 = Runner(_fresh_case(case, [], switches_before), trace=False)
+                f1 = Runner(_fresh_case(case, [], switches_before, main.sys), trace=False)
                 for q in inputs:
                     f1.do(q)
                 fr = f1.do(r)
@@ -477,7 +568,7 @@ def _run(case):
                 old = {json.dumps(e[0]) for e in before}
                 new = [e for e in after if json.dumps(e[0]) not in old]
                 if new:
-                    f2 = Runner(_fresh_case(case, [], []), trace=False)
+                    f2 = Runner(_fresh_case(case, [], [], main.sys), trace=False)
                     for q in inputs:
                         f2.do(q)
                     for k, val in new:
@@ -512,10 +603,24 @@ def coq_case(case):
         run_impl(case)
         res = _RESOLVED.get(_key(case))
     if res == "skip":
-        return "CSkip"
-    c = dict(case)
-    c["requests"] = res
-    return rules.coq_case(c)
+        return "Corr_C18.CSkip"
+    cur = copy.deepcopy(case["sys"])
+    switches = list(cur.get("switches", []))
+    segs, reqs = [], []
+    for r in res:
+        if r[0] == "replace":
+            segs.append((cur, reqs))
+            cur = copy.deepcopy(cur)
+            cur["vars"][r[1]]["formulas"] = copy.deepcopy(r[2])
+            cur["switches"] = sorted(set(switches))
+            reqs = []
+            continue
+        if r[0] == "switch":
+            switches = [k for k in switches if k != r[1]] + ([r[1]] if r[2] else [])
+        reqs.append(r)
+    segs.append((cur, reqs))
+    body = clist([f"({rules.csys(sy, case.get('cfg'))}, {clist([rules.crequest(r) for r in rs])})" for sy, rs in segs])
+    return f"(Corr_C18.CSeq {rules.cpop(case['pop'])} {body})"
 
 
 def obs_for_coq(case, obs):
@@ -553,7 +658,7 @@ def oracle(case, obs):
                 return f"swallowed: an exception ({fired['kind']}) was raised under {what} but the caller got a value"
             if a.kind != fired["kind"]:
                 return f"swallowed: the caller of {what} got {a.kind}, the failure was {fired['kind']}"
-        if full and reentered is not None and a != Err("ECycle"):
+        if reentered is not None and a != Err("ECycle"):
             return f"swallowed: {reentered} was requested while it was being computed under {what}; the caller got {a}"
         old = {json.dumps(e[0]): e[1] for e in prev_cache}
         now = {json.dumps(e[0]): e[1] for e in cache}
@@ -612,6 +717,8 @@ def classify(case, obs):
     depth = max([len(f["frames"]) for f in obs["fired"] if f is not None] or [0])
     tag = f"{case.get('mode')}:{kind}:{'trace' if (case.get('cfg') or {}).get('trace') else 'notrace'}"
     tag += f":depth{min(depth, 3)}{'+' if depth > 3 else ''}"
+    if any(r[0] == "replace" for r in obs["requests"]):
+        tag += ":class-replaced"
     if case.get("mode") == "full":
         tag += ":recovered" if recovered(case, obs) else ":not-recovered"
     return tag
